@@ -27,8 +27,98 @@ from engine import symreal as S
 from checks import kernels as K
 
 META = dict(
-    explanation='filled in at the end of this module',
-    functions=[], files=[], bounds={}, outside=[], stubs=[], assumptions=[],
+    explanation=(
+        'Fragment of C20 in three parts, all on the real code with solver reals as values.  '
+        '(a) INPUTS UNCHANGED / FRESH RESULT: Integration.one_pop..five_pops (scalar and function-of-time parameters, '
+        'frozen flags, the T==initial_t shortcut with one solver variable for both times, one time step otherwise; '
+        'density, grid, every parameter symbolic; kernels interpreted from LLVM IR, tridiagonal solves as contracts), '
+        'the Spectrum methods (S, pi, Watterson_theta, theta_L, Tajima_D, Zengs_E, Fst, log, project, marginalize, '
+        'filter_pops, combine_pops, combine_two_pops, reorder_pops, scramble_pop_ids, fold, unfold, +, scalar *, the '
+        'constructor with and without an explicit mask, mask_corners on a copy), Spectrum.from_phi (semi-analytic, direct, '
+        'admix_props), Inference.ll / ll_multinom / *_per_bin / minus_* / optimal_sfs_scaling / optimally_scaled_sfs / '
+        'linear_Poisson_residual, Inference._object_func (bounds with None holes, fixed_params, func_args, func_kwargs) '
+        'and _project_params_up/down, Misc.perturb_params (list and array params, bound lists with and without None), '
+        'the non-pulse PhiManip functions and the Numerics helpers are executed on symbolic arguments along every '
+        'feasible path; afterwards every argument array / list / dict is compared with a deep snapshot taken before the '
+        'call: same element object, else a solver equality of the two terms; masks, pop_ids, folded, extrap_x by value; '
+        'list entries by identity.  The integrators (always) and the functions documented as returning a new object '
+        '(fold, unfold, the PhiManip split/admix/remove functions) must return an object that is not the argument and '
+        'shares no memory with it (numpy.shares_memory on data and mask buffers).  '
+        '(b) LAYOUT INDEPENDENCE: one_pop..five_pops are run for one time step (real _compute_dt, T below every '
+        'step) with exact rational grid and parameters and a SYMBOLIC density; the density is passed as C-ordered, '
+        '[::1], Fortran-ordered, fully transposed, axis-swapped (first two / last two axes), [::2]-strided (first / last '
+        'axis), [1:-1]-offset (first / last axis) and negatively strided (first / last / all axes) views of a larger '
+        'symbolic base array, and the grid as contiguous, [::2]-strided, reversed ([::-1] of a decreasing buffer) and '
+        '[1:-1]-offset views; the C kernels run in the IR interpreter with Cython\'s pointer semantics (<double*> a.data = '
+        'address of the view\'s first element inside the base buffer, contiguous walk; all walks stay inside the base '
+        'buffer by construction).  z3 decides, entry by entry, result(view) == result(private C-contiguous copy) - exact '
+        'linear forms in the density, so the claim is for all densities.  The same through the public API: '
+        'PhiManip.reorder_pops (a transposition) followed by an integration step; Spectrum.from_phi on views.  '
+        '(c) CACHES: Spectrum_mod._dbeta_cache (key (n, tuple(grid))): from_phi on two independent symbolic grids, on '
+        'grids that differ in exactly one interior point, with different sample sizes, and twice on the same grid, in 2-4 '
+        'dimensions: first, second and repeated-first results equal the results with a cold cache; Godambe.cache (key '
+        '(function, params, ns, pts)): get_godambe(just_hess=True) on a Poisson model with symbolic parameters, call pairs '
+        'that differ in all parameters / the last parameter only / grid points / sample sizes / model function / nothing; '
+        'mixed histories (from_phi on two symbolic grids, project, fold, marginalize, optimal_sfs_scaling) in three '
+        'orders; integer-keyed caches (_projection_cache, _part_cache, _part_precalc_cache, _multinomln_cache, '
+        '_BetaBinomln_cache) by ENUMERATION over a fixed operation set in three orders (symbolic spectrum entries, '
+        'integer keys): warm == cold, cached weight arrays not modified by their users, partitions == an independent '
+        'enumeration.'),
+    functions=['dadi.Integration.one_pop', 'dadi.Integration.one_pop_X', 'dadi.Integration.two_pops', 'dadi.Integration.three_pops',
+               'dadi.Integration.four_pops', 'dadi.Integration.five_pops', 'dadi.Integration._one/_two/_three_pops_const_params',
+               'integration_c.pyx wrappers + implicit_*D* / implicit_precalc_* kernels + tridiag (LLVM IR)',
+               'dadi.Spectrum methods: S pi Watterson_theta theta_L Tajima_D Zengs_E Fst log project marginalize filter_pops '
+               'combine_pops combine_two_pops reorder_pops scramble_pop_ids fold unfold __add__ __rmul__ __new__ mask_corners',
+               'dadi.Spectrum.from_phi (+ _from_phi_1D_analytic/_1D_direct/_2D..5D_linalg/_2D,3D_direct/_2D,3D_admix_props)',
+               'dadi.Spectrum_mod.cached_dbeta', 'dadi.Inference.ll/ll_per_bin/ll_multinom/ll_multinom_per_bin/minus_ll/'
+               'minus_ll_multinom/optimal_sfs_scaling/optimally_scaled_sfs/linear_Poisson_residual',
+               'dadi.Inference._object_func/_project_params_up/_project_params_down', 'dadi.Misc.perturb_params',
+               'dadi.Misc.ensure_1arg_func', 'dadi.PhiManip.phi_1D_to_2D/phi_2D_to_3D_split_1/_split_2/phi_2D_to_3D_admix/'
+               'phi_3D_to_4D/phi_4D_to_5D/remove_pop/filter_pops/reorder_pops/phi_1D_snm',
+               'dadi.Numerics.trapz/reverse_array/apply_anc_state_misid/make_anc_state_misid_func/make_extrap_func/'
+               'make_extrap_log_func/linear_extrap/quadratic_extrap/cubic_extrap/end_point_first_derivs/intersect_masks/'
+               '_cached_projection/cached_part/cached_part_precalc/multinomln/BetaBinomln/BetaBinomConvolution',
+               'dadi.Godambe.get_godambe/get_hess/hessian_elem'],
+    files=K.FILES + ['dadi/Spectrum_mod.py', 'dadi/Numerics.py', 'dadi/Inference.py', 'dadi/PhiManip.py', 'dadi/Godambe.py'],
+    bounds=dict(
+        quick='(a) integrators: L=3 grid points per axis, 1-5 populations, scalars and lambda t: const, no / one / all '
+              'populations frozen, T==initial_t and one step; spectra: shapes (5,), (4,3), (3,3,2) with corner / no / '
+              'interior masks, folded and unfolded; from_phi 1-4 dimensions L<=4; likelihoods on (5,) and folded-data '
+              '(4,3); perturb_params 2 parameters.  (b) L=3, 1-5 populations (5 populations: 9 of 13 density patterns, '
+              '3 of 4 grid patterns), one parameter set.  (c) dbeta: 2-D L=4, 3-D L=3, sample sizes 2-3; Godambe: 2 '
+              'parameters, 3 unmasked bins; 8 projections x 3 orders; 8 mixed calls x 3 orders; partitions n<=3, ploidy<=4.',
+        thorough='(a) integrators also L=4 (1-4 pops) and L=5 (1-3 pops), more frozen patterns; 5 more spectrum '
+                 'configurations; perturb_params 3 parameters.  (b) L=4 for 1-4 populations (all patterns), L=5 for 1-2 '
+                 'populations with a second parameter set, 5 populations L=4 (transposed, strided), all patterns for 5 '
+                 'populations L=3, 3 more reorder_pops orders.  (c) dbeta 2-D L=5, 3-D L=4, 4-D L=3.'),
+    outside=['PYTHONHASHSEED dependence and comparison against a fresh interpreter (no set/dict-order dependent code is '
+             'symbolically distinguishable; not claimed)', 'dadi.Demes.cache (module-level event log; replaced by a no-op in '
+             'the integration units) and everything reached through the demes package',
+             'the pulse functions PhiManip.phi_*D_admix_* (documented "Alters phi in place")',
+             'Spectrum.mask_corners / unmask_all / in-place operators (documented in-place)',
+             'random sampling methods (sample, fixed_size_sample), file I/O, optimiser drivers (C12), CUDA paths',
+             'T < initial_t (rejected with a ValueError that formats the numbers with %f)',
+             'float round-off (doubles modelled as reals), dtypes other than float64, layouts of arrays other than phi and xx',
+             'more than one time step in (a)/(b) (each step goes through the same code)',
+             'll_per_bin diagnostics when model and data masks differ (covered by C11); Anscombe_Poisson_residual '
+             '(fractional powers)',
+             'freshness of results of functions other than the integrators and those documented as returning a new object '
+             '(Spectrum.reorder_pops, PhiManip.reorder_pops and Numerics.reverse_array return views of their argument, '
+             'PhiManip.filter_pops returns its argument when nothing is removed: recorded, not claimed)',
+             'integer-keyed caches: enumeration over the listed operations only (nothing symbolic in the keys)'],
+    stubs=['(a) integrators: tridiag/tridiag_premalloc -> contract (fresh unknowns); Integration._compute_dt -> one fresh '
+           'dt with T - initial_t < dt; dadi.Demes event log -> no-op',
+           '(b): no stubs besides the Demes event log: kernels and Thomas solver interpreted inline from LLVM IR, '
+           'Cython layer parsed from integration_c.pyx with `<double*> a.data` = first element of the view',
+           'numpy array constructors inside dadi modules -> object arrays; Spectrum.__new__ dtype default -> object',
+           'scipy betainc/comb/gammaln -> exact rational versions (engine.esf); gammaln inside Inference -> uninterpreted LGAMMA; '
+           'numpy log/sqrt/exp on solver reals -> uninterpreted; numpy.ma.sqrt fills masked slots with 1',
+           'Misc.numpy.random.uniform -> solver reals in [0,1); numpy.maximum/minimum -> forking versions that accept +-inf',
+           'Numerics.numpy.log10 -> zeros inside the make_extrap_func units (the decades test is C07\'s subject)'],
+    assumptions=['doubles modelled as reals', 'recorded denominators != 0', 'model functions handed to Godambe are pure',
+                 'Cython passes `<double*> ndarray.data` unchanged to C (pointer to the first element of the view), numpy '
+                 '.copy() returns a C-contiguous array', 'z3, clang -O0 IR generation and the IR interpreter trusted; '
+                 'counterexamples are replayed on the float code (ctypes build of the current C sources)'],
 )
 
 DRIVERS = ['one_pop', 'two_pops', 'three_pops', 'four_pops', 'five_pops']
@@ -271,6 +361,42 @@ def _int_inplace_unit(nd, L, mode, frozen, case):
     return H.Unit('inplace-int-%dpop-%s-L%d-frozen%s-%s' % (nd, mode, L, fz, case), body,
                   params=dict(pops=nd, L=L, mode=mode, frozen=list(frozen), case=case), setup=_quiet,
                   min_obligations=L ** nd + L + 3, expect_paths=1, timeout_s=900, maxpaths=64)
+
+
+def _int_X_unit(L, case):
+    """Integration.one_pop_X (X-chromosome variant, constant parameters only)."""
+    def body(env):
+        from dadi import Integration
+        xx = env.grid('x', L)
+        phi = env.array('p', (L,))
+        T = env.real('T', lo=0, lo_open=True, hi=Fr(1, 100))
+        if case == 'noop':
+            t0 = T
+        else:
+            t0 = env.real('t0', lo=0, hi=Fr(1, 100))
+            env.assume(t0 < T)
+        DT = env.real('DT', lo=0, lo_open=True)
+        env.assume(T - t0 < DT)
+        kw = dict(nu=env.real('nu', lo=0, lo_open=True), gamma=env.real('gamma'), h=env.real('h', lo=0, hi=1),
+                  beta=env.real('beta', lo=0, lo_open=True), alpha=env.real('alpha', lo=0, lo_open=True),
+                  theta0=env.real('theta0', lo=0), initial_t=t0)
+        saved = Integration._compute_dt
+        try:
+            if env.symbolic:
+                K.sym_integration()
+                Integration._compute_dt = lambda *a: DT
+            else:
+                K.concrete_modules()
+                Integration._compute_dt = lambda *a: np.inf
+            s_phi, s_xx = _snap(phi), _snap(xx)
+            out = Integration.one_pop_X(phi, xx, T, **kw)
+            _unchanged(env, 'phi', s_phi)
+            _unchanged(env, 'xx', s_xx)
+            _fresh(env, 'result', out, phi)
+        finally:
+            Integration._compute_dt = saved
+    return H.Unit('inplace-int-1popX-const-L%d-%s' % (L, case), body, params=dict(L=L, case=case), setup=_quiet,
+                  min_obligations=2 * L + 2, expect_paths=1, timeout_s=600, maxpaths=64)
 
 
 # =================================================================================================
@@ -571,12 +697,8 @@ def _spec_unit(shape, mask, folded, op):
         largs = [list(a) for a in largs]
         s_fs = _snap(fs)
         s_args = [_snap(a) for a in largs]
-        pid = fs.pop_ids
-        if op == 'fold' or op == 'unfold':
-            raise KeyError(op)
         res = fn(fs, largs)
         _unchanged(env, 'spectrum', s_fs)
-        env.holds('spectrum.pop_ids is still the same list object', fs.pop_ids is pid)
         for k, sa in enumerate(s_args):
             _unchanged(env, 'list argument %d' % k, sa)
         env.holds('result computed', res is not None)
@@ -1190,7 +1312,7 @@ def units(tier, seed):
     us = []
     # ---- (a) integrators
     for nd in range(1, 6):
-        Ls = [3] + ([4] if thorough and nd <= 4 else [])
+        Ls = [3] + ([4] if thorough and nd <= 4 else []) + ([5] if thorough and nd <= 3 else [])
         for L in Ls:
             for mode in ('const', 'func'):
                 for case in ('step', 'noop'):
@@ -1202,6 +1324,8 @@ def units(tier, seed):
         for fz in fzs:
             for mode in (('const', 'func') if (thorough or nd <= 3) else ('func',)):
                 us.append(_int_inplace_unit(nd, 3, mode, fz, 'step'))
+    for case in ('step', 'noop'):
+        us.append(_int_X_unit(4, case))
     # ---- (a) spectra
     cfgs = [((5,), 'corners', False), ((5,), 'none', False), ((5,), 'interior', True), ((4, 3), 'corners', False),
             ((4, 3), 'none', True), ((3, 3, 2), 'interior', False)]
@@ -1260,6 +1384,21 @@ def units(tier, seed):
                     if nd == 5 and not thorough and pat == 'offset':
                         continue
                     us.append(_layout_unit('xx', nd, L, mode, pat, seed))
+    if thorough:
+        for pat in ('T', 'step2-last'):
+            u = _layout_unit('phi', 5, 4, 'func', pat, seed)
+            u.timeout_s = 2400
+            us.append(u)
+        for nd in (1, 2):
+            for mode in ('const', 'func'):
+                for pat in PHI_PATTERNS:
+                    if nd == 1 and pat in ('F', 'T', 'swap01', 'swaplast', 'step2-last', 'offset-last', 'neg-last', 'neg-all'):
+                        continue
+                    if nd == 2 and pat in ('swap01', 'swaplast'):
+                        continue
+                    us.append(_layout_unit('phi', nd, 5, mode, pat, seed + 1))
+                for pat in XX_PATTERNS:
+                    us.append(_layout_unit('xx', nd, 5, mode, pat, seed + 1))
     for nd, order in ((2, (2, 1)), (3, (2, 3, 1)), (4, (2, 1, 3, 4)), (4, (4, 3, 2, 1)), (5, (1, 2, 3, 5, 4))):
         us.append(_reorder_unit(nd, 3, order))
     if thorough:
@@ -1282,4 +1421,14 @@ def units(tier, seed):
     for o in (0, 1, 2):
         us.append(_projection_cache_unit(o))
     us.append(_partition_cache_unit())
+    # The harness replays a bounded number of counterexamples per run, in unit order: the groups that exercise the
+    # 4-/5-population drivers and non-contiguous grids (where defects were found when this check was written) go
+    # last, so that a counterexample anywhere else is always among the replayed ones.
+    late = ('inplace-int-4pop', 'inplace-int-5pop', 'layout-phi-4pop', 'layout-phi-5pop', 'layout-reorder-4pop',
+            'layout-reorder-5pop', 'layout-xx-', 'inplace-misc-perturb_params')
+    # (within that block one representative per defect kind first, so that each kind is among the replayed ones)
+    reps = ['inplace-misc-perturb_params-n2-holes-list', 'layout-xx-1pop-func-L3-step2', 'layout-reorder-4pop-L3-order2134',
+            'layout-phi-5pop-func-L3-T', 'inplace-int-5pop-func-L3-frozen------step', 'inplace-int-4pop-func-L3-frozen-----noop']
+    us.sort(key=lambda u: (any(u.name.startswith(pfx) for pfx in late), reps.index(u.name) if u.name in reps else len(reps)))
+    assert len(set(u.name for u in us)) == len(us)
     return us
